@@ -180,6 +180,27 @@ void h_oct_floatvec(void) {
   ASSERT(cs == s && ct == t, "oct.floatvec.canonical");
   HARNESS_END();
 }
+/* oct.floatvec.dominant.q (C07, direction): the component of largest magnitude keeps its sign and at least a quarter of the octahedron's
+ * L1 radius (exactly scaled it has at least a third), for EVERY finite float32 vector whose largest component is at least 1e-3 in magnitude --
+ * huge values included: an overflowing or truncating normalisation collapses the vector onto an axis and fails here.  The integer vector is observed
+ * at the call of IntegerVectorToQuantizedOctahedralCoords (replaced by a contract that records it). */
+int32_t ghost_iv[3];
+void OTB_IntegerVectorToQuantizedOctahedralCoords(const struct OTB *self, const int32_t *int_vec, int32_t *out_s, int32_t *out_t)
+__CPROVER_requires(__CPROVER_r_ok(int_vec, 12))
+__CPROVER_ensures(ghost_iv[0] == int_vec[0] && ghost_iv[1] == int_vec[1] && ghost_iv[2] == int_vec[2])
+__CPROVER_assigns(*out_s, *out_t, ghost_iv[0], ghost_iv[1], ghost_iv[2]);
+void h_oct_floatvec_dominant(void) {
+  NONDET(int32_t, q); NONDET_ARR(float, f, 3);
+  ASSUME(q == OCT_Q);
+  ASSUME(!isnan(f[0]) && !isnan(f[1]) && !isnan(f[2]) && !isinf(f[0]) && !isinf(f[1]) && !isinf(f[2]));
+  ASSUME(fabsf(f[0]) >= fabsf(f[1]) && fabsf(f[0]) >= fabsf(f[2]) && fabsf(f[0]) >= 1e-3f);
+  struct OTB o; o.quantization_bits_ = -1; o.max_quantized_value_ = 0; o.max_value_ = 0; o.dequantization_scale_ = 1.f; o.center_value_ = -1;
+  ASSUME(OTB_SetQuantizationBits(&o, q));
+  int32_t s = -1, t = -1; OTB_FloatVectorToQuantizedOctahedralCoords_f32(&o, f, &s, &t);
+  ASSERT(f[0] > 0 ? ghost_iv[0] >= o.center_value_ / 4 : ghost_iv[0] <= -(o.center_value_ / 4), "oct.floatvec.dominant_component_keeps_sign_and_weight");
+  ASSERT((int64_t)draco_abs_i32(ghost_iv[0]) + draco_abs_i32(ghost_iv[1]) + draco_abs_i32(ghost_iv[2]) == o.center_value_, "oct.floatvec.integer_vector_on_octahedron");
+  HARNESS_END();
+}
 /* oct.canon_intvec (C07/C02): CanonicalizeIntegerVector on any int32 vector whose components are bounded by 2^29 (what the predictors deliver
  * from quantized positions): no overflow, and the result lies on the octahedron |x|+|y|+|z| == center. */
 void h_oct_canon_intvec(void) {
